@@ -113,6 +113,25 @@ def run_shard(mod, ctx: Ctx, props: dict[str, Any], replay_case: Any = None) -> 
     return d
 
 
+def _defined(repo: str, rel: str, qualname: str) -> bool:
+    """Is a function with this qualified name defined in repo/rel (as compiled code, without importing it)?"""
+    path = os.path.join(repo, rel)
+    try:
+        with open(path, encoding="utf-8") as fd:
+            top = compile(fd.read(), path, "exec")
+    except (OSError, SyntaxError):
+        return False
+    stack = [top]
+    while stack:
+        c = stack.pop()
+        for k in c.co_consts:
+            if hasattr(k, "co_qualname"):
+                if k.co_qualname == qualname:
+                    return True
+                stack.append(k)
+    return False
+
+
 def classify(prop: str, merged: dict[str, Any]):
     """Split violations into known (open, signature listed) and new."""
     open_, fixed = core.load_findings(prop)
@@ -321,6 +340,12 @@ def main(argv: list[str] | None = None) -> int:
 
     # required anchor functions
     missing = [f"{a}:{b}" for a, b in getattr(mod, "REQUIRED", []) if f"{a}:{b}" not in funcs]
+    # an anchor that no longer exists under that name (renamed, inlined or moved by a refactor) cannot be "never entered": the
+    # requirement is about the workload reaching the deciding code that is there, not about how the code is organised
+    gone = [m for m in missing if not _defined(core.REPO, *m.split(":", 1))]
+    if gone:
+        merged.setdefault("extra", {})["anchor_functions_no_longer_defined"] = gone
+    missing = [m for m in missing if m not in gone]
     if missing:
         merged["inconclusive"].append("anchor function(s) never entered: " + ", ".join(missing))
     min_eval = getattr(mod, "MIN_EVALUATIONS", 10)
